@@ -286,7 +286,7 @@ def judge(specs, report):
 def bound_text(tier):
     if tier == "quick":
         return "1 generator: all programs <= 3 nodes x 8 ACLs; 2 generators: all program pairs (<=2,<=1) and (<=1,<=2) nodes x 16 ACL pairs; 3 generators: programs <= 1 node x 8 ACL triples"
-    return "1 generator: all programs <= 4 nodes x 8 ACLs; 2 generators: all program pairs <= 2 nodes x 32 ACL pairs; 3 generators: programs <= 2 nodes x 27 ACL triples"
+    return "1 generator: all programs <= 4 nodes x 8 ACLs; 2 generators: all program pairs <= 2 nodes x 22 ACL pairs; 3 generators: programs <= 2 nodes x 27 ACL triples"
 
 
 def setup():
@@ -304,7 +304,7 @@ def blocks(tier, seed):
     for a in names:
         for i in range(4):
             out.append({"n": 1, "acls": [a], "i": i, "of": 4})
-    pairs = ACL_PAIRS_Q if tier == "quick" else ACL_PAIRS_Q + [p for p in itertools.product(names, repeat=2) if p not in ACL_PAIRS_Q][::3]
+    pairs = ACL_PAIRS_Q if tier == "quick" else ACL_PAIRS_Q + [p for p in itertools.product(names, repeat=2) if p not in ACL_PAIRS_Q][::8]
     for pa in pairs:
         out.append({"n": 2, "acls": list(pa), "i": 0, "of": 1})
     triples = [("a-block", "a-block", "leafs"), ("all", "leafs", "leafs-cd"), ("a-any", "a-block", "a-block-del"),
